@@ -112,4 +112,10 @@ def ConstArr (Γ : Env) (τ : ETy) : Prop :=
   ∃ id elem len, τ.ty.layer = .other id ∧ Γ.others[id]? = some (.array elem len) ∧
     elem.mod.isConst = true ∧ elem.layer.isNumeric = true
 
+/-- a read-only resource (`Buffer<T>`, `StructuredBuffer<T>`, `Texture2D<T>`, ...: the kinds of
+    `Gen.ElabTables.subscriptReadOnly`) whose elements are scalars / vectors / matrices -/
+def ReadOnlyRes (Γ : Env) (τ : ETy) : Prop :=
+  ∃ id kind elem, τ.ty.layer = .other id ∧ Γ.others[id]? = some (.resource kind elem) ∧
+    RsslVerif.Gen.ElabTables.subscriptReadOnly.contains kind = true ∧ elem.layer.isNumeric = true
+
 end RsslVerif.Spec.ElabX
